@@ -345,6 +345,16 @@ class NFEval:
                 if bn.args[1].val == idx.val:
                     return self.nf(bn.args[2])
                 bn = bn.args[0]
+            # memo-table read: `if k not in T: T[k] = v` ... `T[k]` yields v (an entry stored earlier under
+            # the same key holds the same function of the key; C06 decides that the key determines the value)
+            if bn.kind == 'phi' and bn.args[0].kind == 'cmp' and bn.args[0].val in ('in', 'not in') \
+                    and idx.kind != 'const' and self.ikey(bn.args[0].args[0]) == self.ikey(idx):
+                arm = bn.args[1] if bn.args[0].val == 'not in' else bn.args[2]
+                x = arm
+                while x.kind == 'store':
+                    if self.ikey(x.args[1]) == self.ikey(idx):
+                        return self.nf(x.args[2])
+                    x = x.args[0]
             base = self.nf(bn)
             if isinstance(base, Struct) and idx.kind == 'const' and isinstance(idx.val, int) \
                     and -len(base.items) <= idx.val < len(base.items):
